@@ -111,6 +111,12 @@ def corner_population(rnd, year, n_hh):
             a = rnd.choice([60, 63, 65, 66, 67, 80, 100])
             p.update(alter=a, geburtsjahr=year - a, rentner=a >= 63, jahr_renteneintr=year - max(0, a - 65), entgeltp_west=rnd.choice([0.0, 1.0, 45.0, 90.0]),
                      grundr_zeiten=rnd.choice([0, 395, 396, 480]), grundr_bew_zeiten=rnd.choice([0, 1, 300, 480]), grundr_entgeltp=rnd.choice([0.0, 0.29, 0.8, 20.0]))
+        elif k < 0.8:
+            # early retirees who keep working (Hinzuverdienst): wage far above the additional-earnings limit, with a high or low former wage (Deckel)
+            a = rnd.choice([63, 64, 65])
+            p.update(alter=a, geburtsjahr=year - a, rentner=True, jahr_renteneintr=year - rnd.choice([0, 1]), entgeltp_west=rnd.choice([10.0, 45.0, 70.0]),
+                     bruttolohn_m=rnd.choice([600.0, 3000.0, 6000.0, 9000.0, 50000.0]), eink_selbst_m=0.0,
+                     höchster_bruttolohn_letzte_15_jahre_vor_rente_y=rnd.choice([0.0, 30000.0, 90000.0, 150000.0, 1e6]))
     return pop
 
 
